@@ -1,0 +1,5 @@
+//go:build !verif
+
+package NoKV
+
+func verifVlogYield(string, int) {}
